@@ -233,6 +233,7 @@ func modelCfg() idl.Cfg {
 	c.Comments = false
 	c.DistinctThrows = true // C01's finding; irrelevant to the wire format
 	c.NoZeroThrowsID = true
+	c.ArgOptional = true // `optional` arguments are default-requiredness arguments (ref.Build applies the checker's rule)
 	return c
 }
 
